@@ -5,7 +5,7 @@ import Csverif.Driver.Wire
 Layer `resolver` (differential tie of the decision tables; one line in, one canonical line out):
   `safe <s0> <t0> <t1> <behaviour>`      s0 ∈ L|R (side of fhs[0]), t ∈ F|D, behaviour =
         `none` | `falsy` | `truthy` | `tuple <n> <first> <keep>` | `raises` | `temp`, first ∈ h0|h1|d<tag>|x
-     → `pair h0|h1|d<tag> <keep> <called>` | `reraised <called>` | `asis <called>`
+     → `pair h0|h1|d<tag> <keep> <called>` | `reraised <called>`   (the harness writes `asis` when the real function hands back a non-pair)
   `hc <lhash> <lsync> <lpath> <rhash> <rsync> <rpath>`   (each `~` or a number; 0 = falsy value)  → `T` | `F`
   `step <s0> <c0> <c1> <fh> <keep>`      immediate effect of `resolve_conflict` on (path content, parked) per side
      → `L <main> [<conf>,..] R <main> [<conf>,..] <pending>`
@@ -50,7 +50,6 @@ def encChosen : Chosen Nat → String
 def encSafe : SafeRes Nat × Bool → String
   | (.pair fh keep, c) => s!"pair {encChosen fh} {encBool keep} {encBool c}"
   | (.reraised, c) => s!"reraised {encBool c}"
-  | (.asIs, c) => s!"asis {encBool c}"
 
 def encOptNat : Option Nat → String
   | none => "~"
